@@ -368,6 +368,9 @@ def run(ck, ctx):
     get_pool(ck, ctx)
     pools_registered(ck, ctx)
     unknown_pool(ck, ctx)
+    # which pool a step is in: the build statement's own `pool =` wins over its rule's (lookup consults the block first)
+    from . import C11 as R11
+    R11.chains(ck, ctx)
 
 
 def run_config(ck, ctx):
